@@ -143,9 +143,12 @@ def run(ctx: Context, col) -> None:
         col.saw("saved", f"{cls.name}: {sorted(saved_reads)}")
         col.saw("restored", f"{cls.name}: {sorted(restored_writes)}")
         # R9.1 one instance per loop-carried attribute
+        relevant = loop.relevant_attrs()
         for a in sorted(L):
             ex = EXEMPT.get((cls.name, a))
             in_s, in_r = a in spaths, a in rpaths
+            if ex is None and not (in_s and in_r) and a not in relevant:
+                ex = "carried between sweeps but never flows into values, policy, the counter, a stopping test or a save (bookkeeping only)"
             ok = (in_s and in_r) or ex is not None
             col.add("R9.1", f"{cls.name}.{a}", loop.file, loop.header.lineno, ok,
                     (f"loop-carried `{a}` is saved at {'.'.join(spaths[a])} and restored" if in_s and in_r else
